@@ -44,7 +44,7 @@ def _val(kind, val):
     return f"v{val}"
 
 
-_kind = st.sampled_from(["num", "int", "str"])
+_kind = st.sampled_from(["num", "int", "str", "str"])
 _small = st.integers(0, 9)
 _cls = st.integers(0, 4)
 _name3 = st.integers(0, 2)
@@ -78,7 +78,9 @@ def _case(draw):
     reads = draw(st.lists(st.tuples(st.just("read"), _cls, st.sampled_from(["list", "getitem", "values", "objects", "contains"])),
                           max_size=3))
     news = draw(st.lists(st.tuples(st.just("new"), _cls), max_size=2))
-    return {"decl": decl, "ops": [list(o) for o in news + reads + ops]}
+    # ... and an instance that owns per-instance Parameter copies before the class-level changes
+    copies = [("inst_read", draw(_small), draw(_name3))] if news and draw(st.booleans()) else []
+    return {"decl": decl, "ops": [list(o) for o in news + copies + reads + ops]}
 
 
 def strategy(tier):
